@@ -139,8 +139,18 @@ def _tree(rnd, d, depth, normalized=False, for_generate=False):
         parts = [tree(rnd, d, depth - 1) for _ in range(k)]
         lb, ub = rand_bounds(rnd, d, 0.3)
         cls = rnd.choice([D.AdditiveDistribution, D.BayesRule])
-        obj = cls([p.obj for p in parts], lower_bounds=None if lb is None else lb.copy(), upper_bounds=None if ub is None else ub.copy())
-        return Node(obj, f"additive {k} " + " ".join(p.proto for p in parts) + " " + box_str(lb, ub), {"kind": w, "parts": [p.desc for p in parts]}, d, w,
+        # the list of terms may be assembled by the constructor alone or grow afterwards through add_distribution(), with evaluations in between
+        j = rnd.choice([k, k, rnd.randint(1, k)])
+        obj = cls([p.obj for p in parts[:j]], lower_bounds=None if lb is None else lb.copy(), upper_bounds=None if ub is None else ub.copy())
+        for p in parts[j:]:
+            if rnd.random() < 0.5:
+                try:
+                    with np.errstate(all="ignore"):
+                        obj.gradient(np.array([[rnd.uniform(0.2, 1.2)] for _ in range(d)]))
+                except Exception:
+                    pass
+            obj.add_distribution(p.obj)
+        return Node(obj, f"additive {k} " + " ".join(p.proto for p in parts) + " " + box_str(lb, ub), {"kind": w, "parts": [p.desc for p in parts], "via_constructor": j}, d, w,
                     parts, has_kinks=any(p.has_kinks for p in parts), positive_only=any(p.positive_only for p in parts), generable=False, lb=lb, ub=ub)
     if w == "composite" and d >= 2:
         k = rnd.randint(2, min(3, d))
